@@ -183,39 +183,46 @@ theorem cha_lp_point_eq_mixture {K : ℕ} (invN : ℂ) (β : ℂ) (vhat : Fin dA
 
 end sets
 
-/-! ## 4. statements kept for the parts not proved (named gaps) -/
+/-! ## 4. symmetric extensions -/
 
-/-- `(k+1)`-extendible ⇒ `k`-extendible (tracing out one copy of an extension gives an extension), stated on the index level:
-`σ` lives on `A ⊗ B^{⊗(k+1)}`; the reduction keeps the first copy. **Not proved** (gap: needs the `Fin.snoc` bookkeeping of the
-partial trace; probed through the SDPs in the thorough tier). -/
-def KextSuccSubset.Statement : Prop :=
-  ∀ (dA dB k : ℕ) (ρ : Matrix (Fin dA × Fin dB) (Fin dA × Fin dB) ℂ),
-    (∃ σ : Matrix (Fin dA × (Fin (k + 2) → Fin dB)) (Fin dA × (Fin (k + 2) → Fin dB)) ℂ,
-        σ.PosSemidef ∧ (∀ π : Equiv.Perm (Fin (k + 2)), ∀ p q, σ (p.1, p.2 ∘ π) (q.1, q.2 ∘ π) = σ p q) ∧
-        ∀ p q, ρ p q = ∑ r : Fin (k + 1) → Fin dB, σ (p.1, Fin.cons p.2 r) (q.1, Fin.cons q.2 r)) →
-    (∃ σ : Matrix (Fin dA × (Fin (k + 1) → Fin dB)) (Fin dA × (Fin (k + 1) → Fin dB)) ℂ,
-        σ.PosSemidef ∧ (∀ π : Equiv.Perm (Fin (k + 1)), ∀ p q, σ (p.1, p.2 ∘ π) (q.1, q.2 ∘ π) = σ p q) ∧
-        ∀ p q, ρ p q = ∑ r : Fin k → Fin dB, σ (p.1, Fin.cons p.2 r) (q.1, Fin.cons q.2 r))
+section extension
+variable {dA dB : ℕ}
 
-/-- the output of `PureBosonicExt` is the reduction of a pure state on `A ⊗ Sym^k(B)`, hence bosonic-`k`-extendible.
-**Not proved here**: the reduction map `partial_trace_ABk_to_AB` is C17's model (`dicke_reduction_eq`); probed by feeding the
-states to the outer tests. -/
-def PurebHasExtension.Statement : Prop :=
-  ∀ (dA dB k : ℕ) (ψ : Fin dA × (Fin (k + 1) → Fin dB) → ℂ),
-    (∀ π : Equiv.Perm (Fin (k + 1)), ∀ p, ψ (p.1, p.2 ∘ π) = ψ p) →
-    ∃ σ : Matrix (Fin dA × (Fin (k + 1) → Fin dB)) (Fin dA × (Fin (k + 1) → Fin dB)) ℂ,
-      σ.PosSemidef ∧ (∀ π : Equiv.Perm (Fin (k + 1)), ∀ p q, σ (p.1, p.2 ∘ π) (q.1, q.2 ∘ π) = σ p q) ∧
-      ∀ p q, σ p q = ψ p * star (ψ q)
+/-- states with a symmetric extension to `k+1` copies of `B` (`IsSymExt k ρ σ`: `σ ⪰ 0` on `A ⊗ B^{⊗(k+1)}`, invariant under
+permutations of the copies, reducing to `ρ`) -/
+def KEXT (dA dB k : ℕ) : Set (Matrix (Fin dA × Fin dB) (Fin dA × Fin dB) ℂ) := {ρ | ∃ σ, IsSymExt k ρ σ}
 
-/-- the second statement is elementary and is proved: `|ψ⟩⟨ψ|` of a permutation-symmetric `ψ` is a symmetric extension of its
-own reduction (what remains for `pureb_has_extension` is the identification of the Dicke-basis contraction with this reduction). -/
-theorem purebHasExtension : PurebHasExtension.Statement := by
-  intro dA dB k ψ hψ
-  refine ⟨vecMulVec ψ (star ψ), posSemidef_vecMulVec_self_star ψ, ?_, ?_⟩
-  · intro π p q
-    simp only [vecMulVec_apply, Pi.star_apply]
-    rw [hψ π p, hψ π q]
-  · intro p q; simp [vecMulVec_apply]
+/-- **`kext_succ_subset`**: tracing out one copy of a symmetric extension gives a symmetric extension with one copy less —
+the `(k+1)`-extendible states are `k`-extendible, for every `k` and all local dimensions. -/
+theorem kext_succ_subset (k : ℕ) : KEXT dA dB (k + 1) ⊆ KEXT dA dB k :=
+  fun ρ ⟨σ, hσ⟩ => ⟨traceFirst σ, isSymExt_traceFirst ρ σ hσ⟩
+
+/-- extendible states are positive: `KEXT k ⊆ DM` -/
+theorem kext_subset_dm (k : ℕ) : KEXT dA dB k ⊆ DM dA dB :=
+  fun ρ ⟨σ, hσ⟩ => isSymExt_posSemidef ρ σ hσ
+
+/-- hence `β_(k+1)ext ≤ β_kext ≤ β_DM` for the exact sets, in every direction -/
+theorem beta_kext_chain (k : ℕ) (c v : Matrix (Fin dA × Fin dB) (Fin dA × Fin dB) ℂ)
+    (hne : (feasible (KEXT dA dB (k + 1)) c v).Nonempty) (hbd : BddAbove (feasible (DM dA dB) c v)) :
+    sSup (feasible (KEXT dA dB (k + 1)) c v) ≤ sSup (feasible (KEXT dA dB k) c v)
+      ∧ sSup (feasible (KEXT dA dB k) c v) ≤ sSup (feasible (DM dA dB) c v) := by
+  have hne' : (feasible (KEXT dA dB k) c v).Nonempty := hne.mono (feasible_mono (kext_succ_subset k) c v)
+  have hbd' : BddAbove (feasible (KEXT dA dB k) c v) := hbd.mono (feasible_mono (kext_subset_dm k) c v)
+  exact ⟨beta_mono (kext_succ_subset k) c v hne hbd', beta_mono (kext_subset_dm k) c v hne' hbd⟩
+
+/-- **`pureb_has_extension` (elementary half)**: for a pure state `ψ` on `A ⊗ B^{⊗(k+1)}` that is symmetric under permutations
+of the copies (what a vector in the Dicke basis is), `|ψ⟩⟨ψ|` is a symmetric extension of its own reduction; so the reduction is
+`(k+1)`-copy extendible and, by `kext_succ_subset`, extendible to every smaller number of copies.
+**Named gap** (C17): that `partial_trace_ABk_to_AB` applied to the Dicke coefficients *is* `reduceLast |ψ⟩⟨ψ|`. -/
+theorem pure_symmetric_reduction_extendible (k : ℕ) (ψ : Fin dA × (Fin (k + 1) → Fin dB) → ℂ)
+    (hψ : ∀ π : Equiv.Perm (Fin (k + 1)), ∀ p, ψ (p.1, p.2 ∘ π) = ψ p) :
+    reduceLast (vecMulVec ψ (star ψ)) ∈ KEXT dA dB k := by
+  refine ⟨vecMulVec ψ (star ψ), posSemidef_vecMulVec_self_star ψ, ?_, fun p q => rfl⟩
+  intro π p q
+  simp only [vecMulVec_apply, Pi.star_apply]
+  rw [hψ π p, hψ π q]
+
+end extension
 
 /-! ## non-vacuity -/
 
